@@ -560,6 +560,9 @@ func (r *collection) addService(service any, lifetime Lifetime, opts ...AddOptio
 		}
 	}
 
+	// A registration that produces several descriptors is all-or-nothing: remember where it started
+	mark := len(r.allDescriptors)
+
 	// Handle result objects (Out structs)
 	// For result objects, we only register each field as a separate service
 	// They all share the same constructor and will be created together
@@ -591,6 +594,7 @@ func (r *collection) addService(service any, lifetime Lifetime, opts ...AddOptio
 
 			// Register the field descriptor
 			if err := r.registerDescriptor(fieldDescriptor); err != nil {
+				r.rollbackTo(mark)
 				return &RegistrationError{
 					ServiceType: field.Type,
 					Operation:   "register result object field",
@@ -642,6 +646,7 @@ func (r *collection) addService(service any, lifetime Lifetime, opts ...AddOptio
 
 				// Register each type descriptor
 				if err := r.registerDescriptor(typeDescriptor); err != nil {
+					r.rollbackTo(mark)
 					return &RegistrationError{
 						ServiceType: ret.Type,
 						Operation:   "register multi-return type",
@@ -661,6 +666,7 @@ func (r *collection) addService(service any, lifetime Lifetime, opts ...AddOptio
 
 			// Validate that the service type implements the interface
 			if !descriptor.Type.Implements(interfaceType) && !reflect.PointerTo(descriptor.Type).Implements(interfaceType) {
+				r.rollbackTo(mark)
 				return &TypeMismatchError{
 					Expected: interfaceType,
 					Actual:   descriptor.Type,
@@ -690,6 +696,7 @@ func (r *collection) addService(service any, lifetime Lifetime, opts ...AddOptio
 
 			// Register the interface descriptor
 			if err := r.registerDescriptor(interfaceDescriptor); err != nil {
+				r.rollbackTo(mark)
 				return &RegistrationError{
 					ServiceType: interfaceType,
 					Operation:   "register as interface",
@@ -704,6 +711,24 @@ func (r *collection) addService(service any, lifetime Lifetime, opts ...AddOptio
 
 	// Register the descriptor normally
 	return r.registerDescriptor(descriptor)
+}
+
+// rollbackTo undoes the registrations made since allDescriptors had n entries (most recent first)
+func (r *collection) rollbackTo(n int) {
+	for i := len(r.allDescriptors) - 1; i >= n; i-- {
+		descriptor := r.allDescriptors[i]
+		key := TypeKey{Type: descriptor.Type, Key: descriptor.Key}
+		if r.services[key] == descriptor {
+			delete(r.services, key)
+			continue
+		}
+
+		groupKey := GroupKey{Type: descriptor.Type, Group: descriptor.Group}
+		if members := r.groups[groupKey]; len(members) > 0 && members[len(members)-1] == descriptor {
+			r.groups[groupKey] = members[:len(members)-1]
+		}
+	}
+	r.allDescriptors = r.allDescriptors[:n]
 }
 
 // registerDescriptor registers a descriptor in the appropriate collections based on its type.
